@@ -161,8 +161,10 @@ func calculateExecutionType(
 		return unifiedT
 
 	case base.OPTIONAL_UNIFY:
-		m.evaluatedObjectT.AppendVariant(*base.MakeNil())
-		unifiedT := base.MakeUnifiedT(m.evaluatedObjectT.GetVariants())
+		// work on a copy: the receiver itself must not gain a NilClass variant
+		objectT := m.evaluatedObjectT.DeepCopy()
+		objectT.AppendVariant(*base.MakeNil())
+		unifiedT := base.MakeUnifiedT(objectT.GetVariants())
 
 		return unifiedT
 
